@@ -44,6 +44,32 @@ KIND_OF = {
     "left": "left", "leftouter": "left", "left_outer": "left", "right": "right", "rightouter": "right", "right_outer": "right",
     "semi": "semi", "leftsemi": "semi", "left_semi": "semi", "anti": "anti", "leftanti": "anti", "left_anti": "anti",
 }
+
+
+class _KindOf(dict):
+    """PySpark reads `how` case-insensitively and ignoring underscores (JoinType.apply)"""
+
+    def __missing__(self, how):
+        return dict.__getitem__(self, how.lower().replace("_", ""))
+
+
+KIND_OF = _KindOf(KIND_OF)
+
+
+def respell(rng: random.Random, how: str) -> str:
+    """a spelling PySpark reads as the same join: random upper-casing, underscores moved / inserted"""
+    base = how.replace("_", "")
+    out = []
+    for i, ch in enumerate(base):
+        if i and rng.random() < 0.25:
+            out.append("_")
+        out.append(ch.upper() if rng.random() < 0.5 else ch)
+    s = "".join(out)
+    return s if s != how else s.upper()
+
+
+CAMEL = ["Inner", "CROSS", "Outer", "FULL", "FullOuter", "Full_Outer", "LEFT", "LeftOuter", "Left_Outer", "RIGHT", "RightOuter",
+         "RIGHT_OUTER", "Semi", "LeftSemi", "LEFT_SEMI", "Anti", "LeftAnti", "Left_Anti"]
 ONE_PER_KIND = ["inner", "cross", "outer", "left", "right", "semi", "anti"]
 BIG = 1000
 
@@ -516,6 +542,14 @@ def single_join_cases(rng: random.Random, thorough: bool) -> t.List[dict]:
                             chosen = posts if (thorough and mult == "mixed") else ([posts[0]] + ([rng.choice(posts[1:])] if mult in ("mixed", "nulls") else []))
                             for pname, post in chosen:
                                 cases.append({"frames": prog + [jf] + post, "origin": f"single:{shape}{variant}:{how}:{on_kind}:{mult}:{pname}"})
+    # spellings outside the documented table that PySpark accepts (case, underscores)
+    for how in CAMEL + [respell(rng, h) for h in SPELLINGS]:
+        prog, li, ri, lcols, rcols = lineage("independent", 0, "mixed", ["k", "w"])
+        ons = dict(on_variants("independent", li, ri, lcols, rcols))
+        for on_kind in ("name", "expr"):
+            cases.append({"frames": prog + [{"op": "join", "l": li, "r": ri, "on": ons[on_kind], "how": how}], "origin": f"single:respelled-how:{how}:{on_kind}"})
+        if KIND_OF[how] not in ("cross",):
+            cases.append({"frames": prog + [{"op": "join", "l": li, "r": ri, "on": {"form": "none"}, "how": how}], "origin": f"single:respelled-how:{how}:none"})
     # join() with no `how`, crossJoin()
     for mult in MULTS:
         prog, li, ri, lcols, rcols = lineage("independent", 0, mult, ["k", "w"])
